@@ -379,6 +379,10 @@ Definition reason_statement (r : reason) : Prop :=
       (forall a b, In a (map fst l1) -> In b (map fst l1) -> f a = f b -> a = b) ->
       NoDup (map fst l1) -> Permutation l1 l2 ->
       forall k, lookup keq2 k (build_map keq2 f g l1) = lookup keq2 k (build_map keq2 f g l2)
+  | RMonotoneBudget =>
+      (* whether the budget lasts, and what is left of it when it does, for every visiting order *)
+      forall (A : Type) (cost : A -> nat) (b : nat) (l1 l2 : list A), Permutation l1 l2 ->
+      spend cost l1 b = spend cost l2 b
   | RPureCalleeReviewed =>
       (* with the callee a function of (k, v), the body is made of accepted statements: the loop-body theorem *)
       forall (K V I : Type) (keq : K -> K -> bool) (ieq : I -> I -> bool),
@@ -387,6 +391,32 @@ Definition reason_statement (r : reason) : Prop :=
       body_safe K V I keq ieq body = true -> NoDup (map fst l1) -> Permutation l1 l2 ->
       state_equiv K I keq (run_loop K V I keq body st l1) (run_loop K V I keq body st l2)
   end.
+
+Lemma spend_spec : forall (A : Type) (cost : A -> nat) (l : list A) (b : nat),
+  spend cost l b = if Nat.leb (list_sum (map cost l)) b then Some (Nat.sub b (list_sum (map cost l))) else None.
+Proof.
+  induction l as [|a r IH]; intros b; simpl.
+  - rewrite Nat.sub_0_r. reflexivity.
+  - destruct (Nat.leb (cost a) b) eqn:E.
+    + rewrite IH. apply Nat.leb_le in E.
+      destruct (Nat.leb (list_sum (map cost r)) (Nat.sub b (cost a))) eqn:E2.
+      * apply Nat.leb_le in E2. assert (H : Nat.leb (Nat.add (cost a) (list_sum (map cost r))) b = true) by (apply Nat.leb_le; lia).
+        rewrite H. f_equal. lia.
+      * apply Nat.leb_gt in E2. assert (H : Nat.leb (Nat.add (cost a) (list_sum (map cost r))) b = false) by (apply Nat.leb_gt; lia).
+        rewrite H. reflexivity.
+    + apply Nat.leb_gt in E. assert (H : Nat.leb (Nat.add (cost a) (list_sum (map cost r))) b = false) by (apply Nat.leb_gt; lia).
+      rewrite H. reflexivity.
+Qed.
+
+Lemma list_sum_perm : forall l1 l2 : list nat, Permutation l1 l2 -> list_sum l1 = list_sum l2.
+Proof. intros l1 l2 Hp. induction Hp; simpl; lia. Qed.
+
+Theorem budget_walk_perm_invariant : forall (A : Type) (cost : A -> nat) (b : nat) (l1 l2 : list A), Permutation l1 l2 ->
+  spend cost l1 b = spend cost l2 b.
+Proof.
+  intros A cost b l1 l2 Hp. rewrite !spend_spec.
+  rewrite (list_sum_perm (map cost l1) (map cost l2) (Permutation_map cost Hp)). reflexivity.
+Qed.
 
 Theorem reasons_sound : forall r, reason_statement r.
 Proof.
@@ -421,6 +451,7 @@ Proof.
   - (* RKnownFinding *) exact assign_outer_refuted.
   - (* RCanonicalKeyWrite *) intros K V K2 V2 keq2 Hk f g l1 l2 Hinj Hnd Hp.
     apply (build_map_perm_invariant keq2 Hk f g l1 l2); assumption.
+  - (* RMonotoneBudget *) exact budget_walk_perm_invariant.
   - (* RPureCalleeReviewed *) intros K V I keq ieq Hk Hi body st l1 l2 Hb Hnd Hp.
     apply (safe_body_perm_invariant K V I keq ieq Hk Hi); assumption.
 Qed.
